@@ -132,6 +132,15 @@ CHECKS = {
             "observed are reported and required. Held on the histories produced.",
             "file-system backed finds compared as sets; mutation of returned containers by client code is out of the alphabet.",
             "differential runtime monitoring of histories against fresh processes (fork server), across hash seeds and cache capacities"),
+    "C20": ("exploration", "3 C20",
+            "configuration packages generated from a parameter vector (renamed keys / basetypes / codes / leaf key, removed and inserted levels, "
+            "separators, fixed folders, vocabularies, digit patterns, third basetype, third path configuration, constants on / off, mapping "
+            "styles incl. a non-idempotent one-to-one rotation) are validated by the harness and put first on the python path of fresh "
+            "processes in which the unchanged monitors and reference models of C01-C08 and C11 run (they read the live spil.conf). Held on the "
+            "configurations produced.",
+            "separators that are regex metacharacters are excluded (template literals are regex for the third-party resolver); the known "
+            "trailing-newline findings apply under every configuration.",
+            "the runtime monitors of C01-C08, C11 re-run under generated configurations"),
 }
 
 NOT_YET = {}
